@@ -42,7 +42,10 @@ type c20Input struct {
 	Dirty     string      `json:"dirty"`   // none | unstaged | staged | untracked
 	Requested string      `json:"requested"`
 	DryRun    string      `json:"dryRun"` // absent | true | false
-	Parsed    []c20Parsed `json:"parsed"` // semver.NewVersion of every string of the case (filled by the harness)
+	Parsed    []c20Parsed `json:"parsed"`
+	// the repository is a clone whose remote `origin` (reachable: a directory) has gained a tag since the last fetch;
+	// whatever the run decides, it does not talk to remotes
+	Origin bool `json:"origin,omitempty"` // semver.NewVersion of every string of the case (filled by the harness)
 }
 
 type c20 struct{}
@@ -87,6 +90,7 @@ func (c20) Generate(c *Ctx) []any {
 		in.Dirty = pick(r, []string{"none", "none", "none", "unstaged", "staged", "untracked"})
 		in.Requested = pick(r, c20Requested)
 		in.DryRun = pick(r, []string{"absent", "true", "false", "false", "false"})
+		in.Origin = i%4 == 3
 		out = append(out, in)
 	}
 	return out
@@ -260,6 +264,22 @@ func (c20) Run(c *Ctx, raw json.RawMessage) Case {
 	case "untracked":
 		os.WriteFile(filepath.Join(dir, "new.txt"), []byte("new"), 0o644)
 	}
+	if in.Origin {
+		origin, err := os.MkdirTemp(c.Work, "c20origin-")
+		if err != nil {
+			return Case{Oracle: fail("harness", "%v", err)}
+		}
+		defer os.RemoveAll(origin)
+		if _, err := git(c.Work, "clone", "-q", "--bare", dir, origin); err != nil {
+			return Case{Oracle: fail("harness", "%v", err)}
+		}
+		git(dir, "remote", "add", "origin", origin)
+		git(dir, "fetch", "-q", "origin")
+		// the remote moves on: a release tag the clone has not seen
+		git(origin, "tag", "-a", "v9.9.9", "-m", "v9.9.9", commits[len(commits)-1])
+		git(origin, "tag", "v9", commits[len(commits)-1])
+	}
+	remotesBefore, _ := git(dir, "for-each-ref", "refs/remotes")
 	before, err := c20Refs(dir)
 	if err != nil {
 		return Case{Oracle: fail("harness", "%v", err)}
@@ -295,13 +315,17 @@ func (c20) Run(c *Ctx, raw json.RawMessage) Case {
 	}
 	impl := map[string]any{"exit": exit, "tags": tagsOut}
 	tags := []string{fmt.Sprintf("exit-%d", exit), "dry-" + in.DryRun, "dirty-" + in.Dirty}
+	if in.Origin {
+		tags = append(tags, "origin-ahead")
+	}
 	if res.Panicked {
 		return Case{Input: json.RawMessage(inJSON), Impl: map[string]any{"panic": true}, Oracle: fail("panic", "tools tag panicked: %s", lastLines(res.Stderr, 5)), Tags: tags}
 	}
 
 	// ---- oracle --------------------------------------------------------------------
 	or := Oracle{OK: true}
-	mutated := headBefore != headAfter || len(before) != len(after)
+	remotesAfter, _ := git(dir, "for-each-ref", "refs/remotes")
+	mutated := headBefore != headAfter || len(before) != len(after) || remotesBefore != remotesAfter
 	for n, r := range before {
 		if after[n] != r {
 			mutated = true
